@@ -298,11 +298,15 @@ def campaign_module_path(ck: Check, n: int) -> None:
 
 
 # ---------------------------------------------------------------- end-to-end: documents
-def build_doc(defs: dict, bases: dict) -> dict:
+def build_doc(defs: dict, bases: dict, roots: dict | None = None) -> dict:
     """`defs`: dotted definition name -> list of dotted names it refers to (members);
-    `bases`: dotted name -> dotted name of its base (allOf)."""
+    `bases`: dotted name -> dotted name of its base (allOf);
+    `roots`: dotted names (keys of `defs`) that are root models `array of $ref` instead of objects."""
     d = {}
     for name, refs in defs.items():
+        if roots and name in roots:
+            d[name] = {"type": "array", "items": {"$ref": f"#/definitions/{roots[name]}"}}
+            continue
         props = {"id": {"type": "integer"}}
         for i, r in enumerate(refs):
             props[f"r{i}"] = {"$ref": f"#/definitions/{r}"}
@@ -365,6 +369,13 @@ def gen_case(rng: Rng, depth: int) -> dict:
                     bases[me] = target
                 elif target not in defs[me]:
                     defs[me].append(target)
+    roots: dict[str, str] = {}
+    if rng.chance(1, 3):
+        # a root model (array of a foreign model) that later models refer to: what --collapse-root-models inlines
+        for me in list(defs):
+            if defs[me] and me not in bases and me not in bases.values() and rng.chance(1, 2):
+                roots[me] = defs[me][0]
+                defs[me] = [defs[me][0]]
     opts = dict(
         rng.choice(
             [{}, {}, {}, {"use_exact_imports": True}, {"treat_dot_as_module": True}, {"collapse_root_models": True},
@@ -372,7 +383,11 @@ def gen_case(rng: Rng, depth: int) -> dict:
         )
     )
     model = rng.choice(["pydantic_v2.BaseModel"] * 4 + ["pydantic.BaseModel", "dataclasses.dataclass", "typing.TypedDict"])
-    return {"defs": defs, "bases": bases, "opts": opts, "model": model}
+    case = {"defs": defs, "bases": bases, "opts": opts, "model": model}
+    if roots:
+        case["roots"] = roots
+        case["model"] = rng.choice(["pydantic_v2.BaseModel", "pydantic_v2.BaseModel", "pydantic.BaseModel"])
+    return case
 
 
 # ---------------------------------------------------------------- end-to-end: the property's own oracle
@@ -604,6 +619,8 @@ def classify(fail: dict, case: dict, pred: dict | None, files: dict[str, str]) -
     base = {"oracle": fail["check"], "input_kind": "dotted_names" if "defs" in case else "file_tree"}
     rel = fail.get("file", "")
     comps = [c for f in files for c in f[: -len(".py")].split("/")]
+    if pred is None and case["opts"].get("collapse_root_models") and case.get("roots") and fail["check"] in ("use_is_bound", "use_reaches_definition"):
+        return {**base, "mechanism": "collapse_root_model_import_lost"}
     if fail["check"] in ("names_importable", "parses") or pred is None:
         if any(keyword.iskeyword(c) for c in comps):
             return {**base, "mechanism": "keyword_module_name"}
@@ -623,6 +640,8 @@ def classify(fail: dict, case: dict, pred: dict | None, files: dict[str, str]) -
             nominal, is_init = file_module(r)
             if r in pred["fmap"] and is_init and nominal and pred.get("fmap_plain", {}).get(r) != pred["fmap"][r]:
                 return {**base, "mechanism": "init_body_copied"}
+    if case["opts"].get("collapse_root_models") and case.get("roots") and fail["check"] in ("use_is_bound", "use_reaches_definition"):
+        return {**base, "mechanism": "collapse_root_model_import_lost"}
     if fail["check"] == "use_is_bound" and case["opts"].get("use_exact_imports"):
         # one foreign class used as a base and as a member type in the same module: two aliases for one import
         as_base = {(mod_of(nm), b) for nm, b in case["bases"].items()}
@@ -648,7 +667,7 @@ def classify(fail: dict, case: dict, pred: dict | None, files: dict[str, str]) -
 def observe(case: dict) -> e2e.Result:
     if "files" in case:
         return run_tree(case)
-    return e2e.run_generate(build_doc(case["defs"], case["bases"]), model=case["model"], opts=case["opts"], modular=True)
+    return e2e.run_generate(build_doc(case["defs"], case["bases"], case.get("roots")), model=case["model"], opts=case["opts"], modular=True)
 
 
 def run_tree(case: dict) -> e2e.Result:
@@ -705,6 +724,10 @@ def check_case(ck: Check, camp, case: dict, pending: list, correspond: bool = Tr
         if case["opts"].get("treat_dot_as_module"):
             plain = ck.driver.run([f"mod.filemap 0 {M(pred['mods'])}"])[0]
             pred["fmap_plain"] = {unhx(t.split("=")[0]): (None if t.split("=")[1] == "-" else undot(unhx(t.split("=")[1]))) for t in plain.split(" ")[1:]}
+    if pred is not None and case.get("roots") and case["opts"].get("collapse_root_models"):
+        camp.unmodelled += 1  # collapsed root models change which modules have models: oracle only
+        camp.hit("collapsed_root_models")
+    elif pred is not None:
         correspondence(ck, camp, case, files, pred)
         camp.hit("covered" if pred["checks"]["covered"] == "1" else "not_covered")
         for imp, es in pred["preds"].items():
@@ -788,6 +811,9 @@ CORPUS = [
     {"defs": {"a.b.M": [], "a.X": []}, "bases": {"a.b.M": "a.X"}, "opts": {}, "model": "pydantic_v2.BaseModel"},
     {"defs": {"b.c.d.M": [], "a.y.z.N": [], "b.K": ["b.c.d.M"]}, "bases": {}, "opts": {}, "model": "pydantic_v2.BaseModel"},
     {"defs": {"a.b.c.M": [], "a.K": ["a.b.c.M"], "L": []}, "bases": {}, "opts": {"treat_dot_as_module": True}, "model": "pydantic_v2.BaseModel"},
+    # root models (array of a foreign model), with and without --collapse-root-models
+    {"defs": {"e.Y": [], "c.L": ["e.Y"], "b.M": ["c.L"]}, "bases": {}, "roots": {"c.L": "e.Y"}, "opts": {}, "model": "pydantic_v2.BaseModel"},
+    {"defs": {"e.Y": [], "c.L": ["e.Y"], "b.M": ["c.L"]}, "bases": {}, "roots": {"c.L": "e.Y"}, "opts": {"collapse_root_models": True}, "model": "pydantic_v2.BaseModel"},
 ]
 
 _OBJ = {"type": "object", "properties": {"x": {"type": "integer"}}}
